@@ -230,6 +230,19 @@ def p4(ctx, res):
                 t = ctx.inf.type_of(d, f.parent or f.module)
                 res.check(any(x[0] in ("fn", "rawfn") for x in t), f, f"@{dn}",
                           reason="decorator resolves to repository code that the effect analysis covers")
+    # caches built by hand: lru_cache(...)(f), cached_property(f), functools.cache(f) called as functions
+    classes_in_graph = {f.cls for f in reach if f.cls is not None}
+    scan = set(reach)
+    for c in classes_in_graph:
+        scan |= set(c.methods.values())
+    for f in sorted(scan, key=lambda f: f.qualname):
+        for n in walk_own(f.body):
+            if isinstance(n, ast.Call):
+                dn = dotted(n.func) or ""
+                last = dn.split(".")[-1].lower()
+                if last in ("lru_cache", "cache", "cached_property", "memoize", "memoise", "memoized"):
+                    res.violation(f, n, reason="a cache is constructed inside the validation graph: answers would be remembered "
+                                               "across calls, registrations and reconfigurations")
     fresh_getters = [g for g in getters if g.prop_name in ("validators", "type_validator", "__properties__", "__items__")]
     for g in fresh_getters + helper_funcs:
         r = ef.ret[g]
